@@ -7,6 +7,12 @@ def run(tier: str, seed: int, prop: str = "C05") -> int:
     rep = C.Report(prop, tier, seed)
     wd = C.workdir(prop)
     try:
+        # every transition of Session.tla on real sessions: a receive that fails must raise ProtocolError and nothing else
+        # (foreign exceptions of receive edges are attributed to C05), also for well-formed units that violate the
+        # protocol after particular histories
+        from . import sess
+
+        sess.run_lifecycle(rep, wd, tier, seed)
         strace.run_traces(rep, wd, tier, seed)
         corrupt.replay(rep, codec.generate_corruptions(rep, wd, tier), seed)
         rep.rule = ("recorded receive histories of client and server sessions over streams with malformed units (complete envelopes with broken interiors, bad outer "
